@@ -226,6 +226,35 @@ def one_case(ctx, index, rng: random.Random):
             rec.mon("C06.scale.refusal")
             if not raised:
                 rec.fail(monitor="C06.scale.refusal", op=kind, symptom="operation that the statement says is refused was accepted", diff=["not_refused"], detail={"kind": kind, "after_free_arithmetics_block": left_block})
+        # a bin reading "unknown" (NaN, e.g. the share of a bin that is empty in every member of a collection) does not
+        # switch the refusal of negative factors off for the other bins
+        if np.dtype(h.dtype).kind == "f" and h.frequencies.size >= 2 and float(np.nansum(np.asarray(h.frequencies, dtype=float))) > 0 and rng.random() < 0.3:
+            with attach.quiet():
+                hn = h.copy()
+                fr = np.asarray(hn.frequencies).copy()
+                pos = [i for i in range(fr.size) if not (fr.flat[i] > 0)] or [0]
+                fr.flat[rng.choice(pos)] = np.nan
+                ok_nan = float(np.nansum(fr)) > 0
+                try:
+                    hn.frequencies = fr
+                except Exception:
+                    ok_nan = False
+            if ok_nan:
+                for kind in ("neg", "neg_div", "ineg"):
+                    raised = False
+                    try:
+                        if kind == "neg":
+                            _ = hn * -2
+                        elif kind == "neg_div":
+                            _ = hn / -2.0
+                        else:
+                            hn.copy().__imul__(-1)
+                    except Exception:
+                        raised = True
+                    rec.mon("C06.scale.refusal")
+                    if not raised:
+                        rec.fail(monitor="C06.scale.refusal", op=f"{kind}/nan_bin", symptom="negative factor accepted on a histogram that holds an unknown (NaN) bin beside positive ones",
+                                 diff=["not_refused"], detail={"kind": kind, "frequencies": fr.ravel()[:8]})
         with attach.quiet():
             dd = snap.diff(s0, snap.snapshot(h))
             if dd:
@@ -308,7 +337,50 @@ def collection_case(ctx, index, rng: random.Random):
     rec.case({"edges": e, "k": k, "tot": tot.tolist()}, k >= 2, cls=f"collection/{how}")
 
 
+def narrow_total_case(ctx, index, rng: random.Random):
+    """Compact integer contents whose bins fit the type while their sum does not: total, normalize() and division still use the true sum."""
+    from physt.histogram1d import Histogram1D
+    from physt.histogram_nd import Histogram2D
+
+    rec = ctx.rec
+    rec.mon("C06.identities")
+    dt = rng.choice(["int16", "int32"])
+    top = int(np.iinfo(dt).max)
+    d = rng.choice([1, 1, 2])
+    shape = [rng.randint(2, 6) for _ in range(d)]
+    big = np.array([rng.choice([0, 1, top // 2, top - 1, top, rng.randint(0, top)]) for _ in range(int(np.prod(shape)))], dtype=dt).reshape(shape)
+    edges = [np.array(gen.edges(rng, n)) for n in shape]
+    exact = int(big.astype(np.int64).sum())
+    try:
+        with warnings.catch_warnings():
+            warnings.simplefilter("ignore")
+            h = Histogram1D(edges[0], big.copy()) if d == 1 else Histogram2D(edges, big.copy())
+            tot = h.total
+            percent = rng.random() < 0.4
+            n = h.normalize(percent=percent) if exact > 0 else None
+            half = h / 2
+    except Exception as e:
+        rec.fail(monitor="C06.identities", op="narrow integer contents", symptom=f"total / normalize / division of compact integer contents raised {type(e).__name__}", diff=["raised"],
+                 detail={"dtype": dt, "error": str(e)[:160], "contents": big.ravel()[:8]})
+        return
+    with attach.quiet():
+        if float(tot) != float(exact):
+            rec.fail(monitor="C06.identities", op="total", symptom="total of compact integer contents is not the sum of the bins (wrapped around)", diff=["total"],
+                     detail={"dtype": dt, "got": float(tot), "expected": exact})
+        if n is not None:
+            want = big.astype(float) / exact * (100 if percent else 1)
+            if not np.allclose(np.asarray(n.frequencies, dtype=float), want, rtol=1e-12, atol=0) or abs(float(n.total) - (100 if percent else 1)) > 1e-9:
+                rec.fail(monitor="C06.identities", op="normalize", symptom="normalize() of compact integer contents does not give total 1 (100) with unchanged proportions", diff=["frequencies"],
+                         detail={"dtype": dt, "total_after": float(n.total), "got": np.asarray(n.frequencies).ravel()[:6], "expected": want.ravel()[:6]})
+        if not np.array_equal(np.asarray(half.frequencies, dtype=float), big.astype(float) / 2):
+            rec.fail(monitor="C06.identities", op="truediv", symptom="division of compact integer contents is not element-wise", diff=["frequencies"], detail={"dtype": dt})
+        if not np.array_equal(np.asarray(h.frequencies), big):
+            rec.fail(monitor="C06.identities", op="operand", symptom="operand modified", diff=["operand"], detail={})
+    rec.case([dt, shape, big.ravel().tolist()], exact > top, cls=f"narrow_total/{dt}/{d}d")
+
+
 def run(ctx):
     attach_monitors()
+    ctx.run_cases(ctx.scale(40, 300), narrow_total_case, salt="narrow")
     ctx.run_cases(ctx.scale(500, 4000), one_case, salt="scale")
     ctx.run_cases(ctx.scale(100, 800), collection_case, salt="collection")
